@@ -85,6 +85,12 @@ func c04Gen(r *kit.Rand, idx int) c04Case {
 			op = c04Op{Op: "pull", Name: kit.Pick(r, []string{"ns/pm:latest", "ns/pm:v2", "ns/other:latest"})}
 		case k < 17:
 			op = c04Op{Op: "show", Name: kit.Pick(r, live)}
+		case k < 18:
+			// the base model exists neither locally nor on the (fake) registry: create must fail and change nothing
+			op = c04Op{Op: "create-from", Name: pick(), From: "REG/ns/missing:latest"}
+			if r.Chance(1, 2) {
+				op.Name = kit.Pick(r, live) // it would replace an existing model
+			}
 		default:
 			op = c04Op{Op: "restart", NoPrune: r.Chance(1, 5)}
 		}
@@ -220,6 +226,16 @@ func c04Run(bin, work string, c *c04Case, seed uint64, rep *kit.Report) (vs []c0
 			c04Overrides(req, op)
 			res = srv.Create(req, nil)
 		case "create-from":
+			if strings.HasPrefix(op.From, "REG/") {
+				op.From = reg.RegHost + strings.TrimPrefix(op.From, "REG")
+				req := map[string]any{"model": op.Name, "from": op.From}
+				c04Overrides(req, op)
+				res = srv.Create(req, nil)
+				if res.OK() {
+					viol("c04:create-from-missing-base-succeeded", fmt.Sprintf("op %d: create from the nonexistent base %s reported success", oi, op.From))
+				}
+				break
+			}
 			req := map[string]any{"model": op.Name, "from": op.From}
 			c04Overrides(req, op)
 			found := false
@@ -251,6 +267,9 @@ func c04Run(bin, work string, c *c04Case, seed uint64, rep *kit.Report) (vs []c0
 			}
 			s2, err := StartSrv(bin, home, nil, env...)
 			if err != nil {
+				if envFailure(err) {
+					return nil, "restart: " + err.Error()
+				}
 				viol("c04:restart-failed", fmt.Sprintf("op %d: the server does not start on this store: %v", oi, err))
 				return vs, ""
 			}
